@@ -150,8 +150,10 @@ struct Exec {
                 int want = term == CLOSED ? EPIPE : term_errno;
                 if (kind == OP_RECV) {
                     if (term == CLOSED || want == EPIPE)
-                        VF_CHECK(closed_report || (rc < 0 && e == EPIPE), "C06: xcm_receive after %s returned %d %s (want 0)",
-                                 term == CLOSED ? "close" : "EPIPE", rc, rc < 0 ? errname(e) : "");
+                        // (the call that discovers the close through a failing write may itself say EPIPE;
+                        //  every receive after it says 0 and keeps saying 0)
+                        VF_CHECK(closed_report, "C06: xcm_receive after the peer's close had been reported (%s) returned %d %s (want 0, and 0 from then on)",
+                                 term == CLOSED ? "receive returned 0" : "EPIPE", rc, rc < 0 ? errname(e) : "");
                     else
                         VF_CHECK(rc < 0 && e == want, "C06: xcm_receive after the connection failed with %s returned %d %s (same errno expected)",
                                  errname(want), rc, rc < 0 ? errname(e) : "");
